@@ -29,6 +29,9 @@ import (
 
 func init() {
 	if spec := os.Getenv("VERIF_PROG_CHILD"); spec != "" {
+		// never outlive the worker that waits for this child (it kills the child at
+		// childDeadline; this covers a worker that was itself killed)
+		time.AfterFunc(childDeadline+time.Minute, func() { os.Exit(3) })
 		childMain(spec)
 		os.Exit(0)
 	}
